@@ -42,8 +42,9 @@ func (area) Name() string { return "pipeline" }
 
 type node struct {
 	id       int
-	async    bool
-	out      byte // 'o' ok, 'e' error, 'p' panic
+	async    bool // pooled stage (baseStage.ctx and execPool set)
+	rej      byte // 0: the pool accepts the task; 'X': stopped pool; 'C': cancelled context on a saturated pool
+	out      byte // 'o' ok, 'e' error, 'p' execution panics, 'l' Plan() panics, 'n' NextStages() panics
 	children []*node
 	parent   *node
 
@@ -57,6 +58,9 @@ func (n *node) token() string {
 	k := "S"
 	if n.async {
 		k = "A"
+	}
+	if n.rej != 0 {
+		k = string(n.rej)
 	}
 	return fmt.Sprintf("%s%c%d", k, n.out, len(n.children))
 }
@@ -93,7 +97,10 @@ func tree(s string) *node {
 	pos := 0
 	var parse func() *node
 	parse = func() *node {
-		n := &node{async: s[pos] == 'A', out: s[pos+1]}
+		n := &node{async: s[pos] != 'S', out: s[pos+1]}
+		if s[pos] == 'X' || s[pos] == 'C' {
+			n.rej = s[pos]
+		}
 		pos += 2
 		if pos < len(s) && s[pos] == '(' {
 			pos++
@@ -118,9 +125,10 @@ type genKind int
 
 const (
 	genNoPanic     genKind = iota // outcomes ok/error only
-	genRecoverable                // panics only where the code recovers and completes them
-	genAny                        // anything
+	genRecoverable                // panics only where the source before fix b04bf84 recovered and completed them
+	genAny                        // any panic anywhere (execution, Plan(), NextStages())
 	genLindbShape                 // sync root -> pooled shard scans -> pooled grouping -> pooled data load
+	genReject                     // additionally pooled stages whose pool rejects the task
 )
 
 func randOutcome(r *rand.Rand, kind genKind) byte {
@@ -128,10 +136,12 @@ func randOutcome(r *rand.Rand, kind genKind) byte {
 	switch {
 	case x < 68:
 		return 'o'
-	case x < 86 || kind == genNoPanic:
+	case x < 84 || kind == genNoPanic:
 		return 'e'
-	default:
+	case kind == genRecoverable:
 		return 'p'
+	default:
+		return []byte{'p', 'p', 'l', 'l', 'n'}[r.Intn(5)]
 	}
 }
 
@@ -172,6 +182,9 @@ func genTree(r *rand.Rand, kind genKind, maxNodes int) *node {
 		childMain := onMain && !n.async
 		if kind == genRecoverable && n.out == 'p' && !n.async && !onMain {
 			n.out = 'e'
+		}
+		if kind == genReject && n.async && r.Intn(4) == 0 {
+			n.rej = []byte{'X', 'C'}[r.Intn(2)]
 		}
 		if depth < 4 {
 			fan := r.Intn(4)
@@ -219,7 +232,7 @@ func (o *gateOp) Execute() error {
 	case 'p':
 		panic(fmt.Sprintf("scripted panic in stage %d", o.n.id))
 	}
-	return nil
+	return nil // 'o', and 'n' (NextStages() panics afterwards)
 }
 
 // ---------------------------------------------------------------- one pipeline run
@@ -234,12 +247,48 @@ type obs struct {
 	reg, done   int
 	timeout     string
 	panicked    []*node
+	rejected    []*node // pooled stages whose pool rejected the task
 	threadPanic map[int]bool
+}
+
+// env holds the real pools of one harness run.
+type env struct {
+	pool      concurrent.Pool // accepts every task (64 workers)
+	stopped   concurrent.Pool // a stopped pool: Submit returns at `p.Stopped()`
+	full      concurrent.Pool // 1 worker, saturated with blocked tasks: only `<-ctx.Done()` is ready in Submit
+	cancelled context.Context
+	unblock   chan struct{}
+}
+
+func newEnv() *env {
+	e := &env{unblock: make(chan struct{})}
+	e.pool = concurrent.NewPool("verif-c19", 64, time.Minute,
+		metrics.NewConcurrentStatistics("verif-c19", linmetric.BrokerRegistry))
+	e.stopped = concurrent.NewPool("verif-c19-stopped", 2, time.Minute,
+		metrics.NewConcurrentStatistics("verif-c19-stopped", linmetric.BrokerRegistry))
+	e.stopped.Stop()
+	e.full = concurrent.NewPool("verif-c19-full", 1, time.Minute,
+		metrics.NewConcurrentStatistics("verif-c19-full", linmetric.BrokerRegistry))
+	// 1 task running, 1 in the dispatcher's hand waiting for a worker, 8 in the tasks channel:
+	// the 10th Submit can only return once the channel is full again
+	for i := 0; i < 10; i++ {
+		e.full.Submit(context.Background(), concurrent.NewTask(func() { <-e.unblock }, nil))
+	}
+	ctx, cancel := context.WithCancel(context.Background())
+	cancel()
+	e.cancelled = ctx
+	return e
+}
+
+func (e *env) close() {
+	close(e.unblock)
+	e.full.Stop()
+	e.pool.Stop()
 }
 
 type runner struct {
 	c       *core.Ctx
-	pool    concurrent.Pool
+	env     *env
 	ctx     context.Context
 	ev      chan event
 	all     []*node
@@ -258,9 +307,15 @@ func (r *runner) mkStage(n *node) stage.Stage {
 		ID: "verif-stage-" + strconv.Itoa(n.id),
 		PlanFn: func() stage.PlanNode {
 			r.ev <- event{kind: "plan", n: n}
+			if n.out == 'l' {
+				panic(fmt.Sprintf("scripted panic in Plan() of stage %d", n.id))
+			}
 			return stage.NewPlanNode(&gateOp{n: n, ev: r.ev})
 		},
 		NextFn: func() []stage.Stage {
+			if n.out == 'n' {
+				panic(fmt.Sprintf("scripted panic in NextStages() of stage %d", n.id))
+			}
 			var next []stage.Stage
 			for _, c := range n.children {
 				next = append(next, r.mkStage(c))
@@ -269,8 +324,13 @@ func (r *runner) mkStage(n *node) stage.Stage {
 		},
 		CompleteFn: func() { r.ev <- event{kind: "complete", n: n} },
 	}
-	if n.async {
-		spec.Ctx, spec.Pool = r.ctx, r.pool
+	switch {
+	case n.rej == 'X':
+		spec.Ctx, spec.Pool = r.ctx, r.env.stopped
+	case n.rej == 'C':
+		spec.Ctx, spec.Pool = r.env.cancelled, r.env.full
+	case n.async:
+		spec.Ctx, spec.Pool = r.ctx, r.env.pool
 	}
 	return &identStage{Stage: stage.NewVerifStage(spec), r: r, n: n}
 }
@@ -314,11 +374,24 @@ func (r *runner) settle(running int) {
 		case "ident":
 			r.o.reg++
 		case "plan":
-			if e.n.async {
+			switch {
+			case e.n.out == 'l':
+				// Plan() panics on the goroutine that starts the stage; nothing is submitted
+				e.n.thread = running
+				e.n.executed = true
+				r.failed = true
+				r.o.panicked = append(r.o.panicked, e.n)
+				r.o.threadPanic[running] = true
+			case e.n.rej != 0:
+				// the pool rejects the task: the stage never runs
+				e.n.thread = -1
+				r.failed = true
+				r.o.rejected = append(r.o.rejected, e.n)
+			case e.n.async:
 				e.n.thread = r.nextThr
 				r.nextThr++
 				r.pendArr++
-			} else {
+			default:
 				e.n.thread = running
 			}
 		case "gate":
@@ -334,7 +407,7 @@ func (r *runner) settle(running int) {
 			if r.o.cb == 0 {
 				r.o.lastDone = e.n
 			}
-			if e.n.async && e.n.thread == running {
+			if e.n.async && e.n.rej == 0 && e.n.out != 'l' && e.n.thread == running {
 				// the task's own stage: completeStage is the last thing the task does.
 				// Wait for its Dec (and the callback it may trigger).
 				if !r.awaitDec() {
@@ -436,9 +509,9 @@ func (r *runner) final() string {
 
 // run executes one pipeline case. sched == nil: goroutines are released in random order (rng);
 // otherwise in the given order.
-func runPipeline(c *core.Ctx, pool concurrent.Pool, root *node, rng *rand.Rand, sched []int) (*runner, []int) {
+func runPipeline(c *core.Ctx, en *env, root *node, rng *rand.Rand, sched []int) (*runner, []int) {
 	all := number(root)
-	r := &runner{c: c, pool: pool, ctx: context.Background(), ev: make(chan event, 4096), all: all,
+	r := &runner{c: c, env: en, ctx: context.Background(), ev: make(chan event, 4096), all: all,
 		blocked: map[int]*node{}, nextThr: 1}
 	r.o.threadPanic = map[int]bool{}
 	taskCtx := flow.NewTaskContextWithTimeout(context.Background(), time.Minute)
@@ -486,7 +559,7 @@ func runPipeline(c *core.Ctx, pool concurrent.Pool, root *node, rng *rand.Rand, 
 		if n.out != 'o' {
 			r.failed = true
 		}
-		if n.out == 'p' {
+		if n.out == 'p' || n.out == 'n' {
 			r.o.panicked = append(r.o.panicked, n)
 			r.o.threadPanic[k] = true
 		}
@@ -572,7 +645,17 @@ func (r *runner) oracle(c *core.Ctx, root *node, used []int, witness string) {
 	}
 	// a fixed witness reports under its own key only the shape it was recorded for
 	key := func(region string) string {
-		if strings.HasPrefix(witness, "witness-sync-panic") == (region == "no-callback-sync-panic-on-pooled-goroutine") && witness != "" {
+		if witness == "" {
+			return region
+		}
+		wregion := "error-lost-last-finisher-ok"
+		switch {
+		case strings.HasPrefix(witness, "witness-sync-panic"):
+			wregion = "no-callback-sync-panic-on-pooled-goroutine"
+		case strings.HasPrefix(witness, "witness-rejected"):
+			wregion = "no-callback-task-rejected-by-pool"
+		}
+		if wregion == region {
 			return witness
 		}
 		return region
@@ -590,6 +673,9 @@ func (r *runner) oracle(c *core.Ctx, root *node, used []int, witness string) {
 			}
 		}
 		switch {
+		case len(o.rejected) > 0:
+			c.Fail(key("no-callback-task-rejected-by-pool"), fmt.Sprintf("%s: the pool rejected the task of pooled stage #%d (stopped pool / cancelled context) without telling anybody; the stage stays registered (pending>0) and completion is never signalled",
+				what, o.rejected[0].id))
 		case !anyPanic:
 			c.Fail("no-callback-without-panic", what+": no stage panicked, every goroutine ended, completion was never signalled")
 		case inRegionB:
@@ -642,6 +728,23 @@ var fixed = []fixedCase{
 	{"So(Ao,Sp)", []int{0, 0, 1}, ""},
 	// lindb's leaf shape, every stage succeeds
 	{"So(Ao(Ao(Ao)),Ao(Ao))", []int{0, 2, 1, 3, 4, 5}, ""},
+	// Plan() of a pooled non-root stage panics inline, before it is submitted; a sibling follows
+	{"So(Al,Ao)", []int{0, 1}, ""},
+	// … under a pooled parent
+	{"So(Ao(Al,So))", []int{0, 1, 1}, ""},
+	// Plan() of the root panics: pooled root, synchronous root
+	{"Al", []int{}, ""},
+	{"Sl(So)", []int{}, ""},
+	// Plan() of a synchronous non-root stage panics, under a synchronous and under a pooled parent
+	{"So(Sl,Ao)", []int{0, 1}, ""},
+	{"So(Ao(Sl,Se))", []int{0, 1, 1}, ""},
+	// NextStages() panics: synchronous root, pooled non-root, synchronous stage under a pooled parent
+	{"Sn(So)", []int{0}, ""},
+	{"So(An(So),Ao)", []int{0, 2, 1}, ""},
+	{"So(Ao(Sn(So)))", []int{0, 1, 1}, ""},
+	// (c) the pool rejects the task of a registered stage: stopped pool / cancelled context
+	{"So(Xo)", []int{0}, "witness-rejected-task-stopped-pool"},
+	{"So(Ao(Co,Ae))", []int{0, 1, 2}, "witness-rejected-task-cancelled-context"},
 }
 
 // ---------------------------------------------------------------- LeafExecuteContext.SendResponse
@@ -691,10 +794,8 @@ func runLeaf(c *core.Ctx, rng *rand.Rand) {
 // ---------------------------------------------------------------- area
 
 func (area) Run(c *core.Ctx) error {
-	maxWorkers := 64
-	pool := concurrent.NewPool("verif-c19", maxWorkers, time.Minute,
-		metrics.NewConcurrentStatistics("verif-c19", linmetric.BrokerRegistry))
-	defer pool.Stop()
+	pool := newEnv()
+	defer pool.close()
 	maxNodes := 9
 	if c.Tier == "thorough" {
 		maxNodes = 14
@@ -730,17 +831,19 @@ func (area) Run(c *core.Ctx) error {
 		}
 		kind := genKind(0)
 		switch x := rng.Intn(100); {
-		case x < 35:
+		case x < 30:
 			kind = genNoPanic
-		case x < 60:
+		case x < 40:
 			kind = genRecoverable
-		case x < 85:
+		case x < 75:
 			kind = genAny
-		default:
+		case x < 90:
 			kind = genLindbShape
+		default:
+			kind = genReject
 		}
 		root := genTree(rng, kind, maxNodes)
-		c.Branch([]string{"gen-no-panic", "gen-recoverable-panics", "gen-any", "gen-lindb-shape"}[kind])
+		c.Branch([]string{"gen-no-panic", "gen-recoverable-panics", "gen-any-panic", "gen-lindb-shape", "gen-rejected-tasks"}[kind])
 		r, used := runPipeline(c, pool, root, rng, nil)
 		r.oracle(c, root, used, "")
 		if r.o.timeout != "" {
@@ -763,8 +866,18 @@ func (area) Run(c *core.Ctx) error {
 		if len(r.o.panicked) > 0 {
 			c.Branch("run-with-panic")
 		}
-		if r.o.threadPanic[0] {
-			c.Branch("toplevel-recover")
+		for _, n := range r.o.panicked {
+			switch n.out {
+			case 'l':
+				c.Branch("panic-in-Plan")
+			case 'n':
+				c.Branch("panic-in-NextStages")
+			default:
+				c.Branch("panic-in-execution")
+			}
+		}
+		if len(r.o.rejected) > 0 {
+			c.Branch("task-rejected-by-pool")
 		}
 		if r.failed {
 			c.Branch("run-with-failure")
